@@ -227,6 +227,35 @@ def check(case):
                 changed_something = True
                 labels.add("changed:set_all")
 
+    # ---- after the history, each instance (configured through whatever single-key and all-key updates it received) behaves like its own
+    # clone (configured through the constructor with the values the instance reports): anything an update left half-done shows here
+    if entry is not None and data is not None and changed_something:
+        for which, x in (("A", a), ("B", b)):
+            try:
+                cx = clone(x)
+            except Exception:  # noqa: BLE001 - judged by the clone checks above
+                continue
+            Xh, yh, wh = R.materialize(data)
+            np.random.seed(case["seed"])
+            try:
+                entry.fit(cx, Xh, yh, wh)
+            except Exception:  # noqa: BLE001 - a configuration the data does not suit (too many clusters, ...): nothing to compare
+                continue
+            np.random.seed(case["seed"])
+            _guard("fit-after-history", lambda: entry.fit(x, *R.materialize(data)), facts)
+            Zh = entry.probe(data, Xh, yh)
+            np.random.seed(case["seed"] + 1)
+            try:
+                fc = R.fingerprint(entry, cx, Zh)
+            except Exception:  # noqa: BLE001 - this configuration refuses the probe rows (strict unseen categories, ...): nothing to compare
+                continue
+            np.random.seed(case["seed"] + 1)
+            fx = _guard("output-after-history", lambda: R.fingerprint(entry, x, Zh), facts)
+            d = R.same_fingerprint(fx, fc, exact=entry.exact)
+            require(d is None, "behaviour:instance-differs-from-its-clone-after-history",
+                    "instance %s, after the updates of the history and a fit, does not behave like clone(instance) fitted on the same data: %s" % (which, d), facts)
+        labels.add("behaviour-after-history-checked")
+
     # ---- the result of set_params does not depend on the order of the keyword arguments (GridSearchCV / ParameterGrid sort them)
     for order_name, keyfn, rev in (("sorted", None, False), ("reverse-sorted", None, True)):
         src = _guard("construct", lambda: R.build(case["A"]), facts)
